@@ -397,6 +397,9 @@ by `subst_type_inplace` reaches one of them -/
 def NoAlias (h : Heap) (m : Memo) (R : List Addr) : Prop :=
   ∀ b, b ∉ R → m b ≠ none → ∀ x, Reach h b x → x ∉ R
 
+/-- `h'` has every object of `h`, unchanged (operations that only allocate) -/
+def Ext (h h' : Heap) : Prop := ∀ x o, h x = some o → h' x = some o
+
 /-- legal events of a history with memoised hashes -/
 inductive MStep : Heap × Memo → Heap × Memo → Prop where
   | alloc {h h' m a n} : alloc h a n = some h' → MStep (h, m) (h', m)
@@ -406,6 +409,9 @@ inductive MStep : Heap × Memo → Heap × Memo → Prop where
   | hash {h m a t} : Repr h a t → MStep (h, m) (h, memoise m a t)
   | inplace {h m σ R} : ChildClosed h R → NoAlias h m R →
       MStep (h, m) (inplaceHeap σ R h, inplaceMemo true R h m)
+  /-- any operation that only allocates objects carrying their own address as `_id`
+  (`subst_bound`, `subst`, `incr_boundvars`, … : `sbHeap`, `substHeap`, `incrHeap`) -/
+  | grow {h h' m} : Ext h h' → (IdInv h → IdInv h') → MStep (h, m) (h', m)
 
 inductive MSteps : Heap × Memo → Heap × Memo → Prop where
   | nil (s) : MSteps s s
@@ -419,7 +425,8 @@ at the occurrences of the bound variable), run on the heap as written: `rec(s, n
 unchanged, replaces `Bound n` by the object `t`, allocates `Bound(i-1)` for `i > n`, and for `Comb` /
 `Abs` nodes first consults `cache[(s._id, n)]`, then recurses, re-uses `s` when the children came
 back identical (`fun_s._id == s.fun._id and …`), else allocates a new node, and stores the result
-under `(s._id, n)`.  `keyDepth = false` is the variant whose key forgets the binder depth `n`. -/
+under `(s._id, n)`.  `keyDepth = false` is the variant whose key forgets the binder depth `n`.  (`sbHeap` itself is
+defined in section (f), after `incr_boundvars`, which the open-argument case needs.) -/
 
 abbrev Cache := List ((Addr × Nat) × Addr)
 
@@ -433,7 +440,49 @@ def allocNext (h : Heap) (c : Cache) (as : List Addr) (n : Node) : Option (Heap 
   | [] => none
   | a :: rest => (alloc h a n).map (fun h' => (h', c, rest, a))
 
-def sbHeap (keyDepth : Bool) (ua : Addr) :
+/-! ## (f) `incr_boundvars` on the heap, the open-argument case of `subst_bound`, the cache of `subst`
+
+`t.incr_boundvars(inc)` is `rec(t, lev)` with the `_id`-based re-use of unchanged nodes (no cache);
+a loose `Bound(i)` becomes a NEW object `Bound(i + inc)`.  `subst_bound` calls it (`opn`: the
+argument `t.is_open()`) at every occurrence of the bound variable, with `inc` = the binder depth.
+`Term.subst`'s `rec` caches the result of every `Comb` / `Abs` node under `t._id` alone: the result
+does not depend on the binder depth because instances are closed. -/
+
+def allocN (h : Heap) (as : List Addr) (n : Node) : Option (Heap × List Addr × Addr) :=
+  match as with
+  | [] => none
+  | a :: rest => (alloc h a n).map (fun h' => (h', rest, a))
+
+def incrHeap (inc : Nat) : Nat → Heap → List Addr → Addr → Nat → Option (Heap × List Addr × Addr)
+  | 0, _, _, _, _ => none
+  | fuel + 1, h, as, s, lev =>
+    match h s with
+    | none => none
+    | some o =>
+      match o.node with
+      | .svar _ _ => some (h, as, s)
+      | .var _ _ => some (h, as, s)
+      | .const _ _ => some (h, as, s)
+      | .bound i => if i ≥ lev then allocN h as (.bound (i + inc)) else some (h, as, s)
+      | .comb f x =>
+        match incrHeap inc fuel h as f lev with
+        | none => none
+        | some (h1, as1, f') =>
+          match incrHeap inc fuel h1 as1 x lev with
+          | none => none
+          | some (h2, as2, x') =>
+            if sameId h2 f' f && sameId h2 x' x then some (h2, as2, s)
+            else allocN h2 as2 (.comb f' x')
+      | .abs nm T b =>
+        match incrHeap inc fuel h as b (lev + 1) with
+        | none => none
+        | some (h1, as1, b') =>
+          if sameId h1 b' b then some (h1, as1, s) else allocN h1 as1 (.abs nm T b')
+
+/-- `subst_bound` in general: `opn` is `t.is_open()` (computed once by the code); when it is true
+the occurrence of the bound variable at depth `n` gets `t.incr_boundvars(n)`, a fresh copy of the
+spine of `t` with its loose bound variables shifted (`ifuel` bounds that recursion). -/
+def sbHeap (keyDepth opn : Bool) (ifuel : Nat) (ua : Addr) :
     Nat → Heap → Cache → List Addr → Addr → Nat → Option (Heap × Cache × List Addr × Addr)
   | 0, _, _, _, _, _ => none
   | fuel + 1, h, c, as, s, n =>
@@ -445,7 +494,9 @@ def sbHeap (keyDepth : Bool) (ua : Addr) :
       | .var _ _ => some (h, c, as, s)
       | .const _ _ => some (h, c, as, s)
       | .bound i =>
-        if i = n then some (h, c, as, ua)
+        if i = n then
+          if opn then (incrHeap n ifuel h as ua 0).map (fun r => (r.1, c, r.2.1, r.2.2))
+          else some (h, c, as, ua)
         else if i > n then allocNext h c as (.bound (i - 1))
         else some (h, c, as, s)
       | .comb f x =>
@@ -453,10 +504,10 @@ def sbHeap (keyDepth : Bool) (ua : Addr) :
         match c.lookup key with
         | some r => some (h, c, as, r)
         | none =>
-          match sbHeap keyDepth ua fuel h c as f n with
+          match sbHeap keyDepth opn ifuel ua fuel h c as f n with
           | none => none
           | some (h1, c1, as1, f') =>
-            match sbHeap keyDepth ua fuel h1 c1 as1 x n with
+            match sbHeap keyDepth opn ifuel ua fuel h1 c1 as1 x n with
             | none => none
             | some (h2, c2, as2, x') =>
               if sameId h2 f' f && sameId h2 x' x then some (h2, (key, s) :: c2, as2, s)
@@ -469,7 +520,7 @@ def sbHeap (keyDepth : Bool) (ua : Addr) :
         match c.lookup key with
         | some r => some (h, c, as, r)
         | none =>
-          match sbHeap keyDepth ua fuel h c as b (n + 1) with
+          match sbHeap keyDepth opn ifuel ua fuel h c as b (n + 1) with
           | none => none
           | some (h1, c1, as1, b') =>
             if sameId h1 b' b then some (h1, (key, s) :: c1, as1, s)
@@ -477,5 +528,65 @@ def sbHeap (keyDepth : Bool) (ua : Addr) :
               match allocNext h1 c1 as1 (.abs nm T b') with
               | none => none
               | some (h2, c2, as2, a) => some (h2, (key, a) :: c2, as2, a)
+
+/-- cache of `Term.subst`: `_id` of the node ↦ result -/
+abbrev Cache1 := List (Addr × Addr)
+
+/-- an instantiation on the heap: name ↦ (the instance object, the term it represents — the code
+type-checks `var_inst` entries by walking the object) -/
+abbrev InstH := List (String × Addr × Term)
+
+def instTerms (l : InstH) : List (String × Term) := l.map (fun p => (p.1, p.2.2))
+
+/-- `rec` of `Term.subst` on the heap (`none` also stands for the TermException of an ill-typed
+`var_inst` entry) -/
+def substHeap (sv vv : InstH) :
+    Nat → Heap → Cache1 → List Addr → Addr → Option (Heap × Cache1 × List Addr × Addr)
+  | 0, _, _, _, _ => none
+  | fuel + 1, h, c, as, s =>
+    match h s with
+    | none => none
+    | some o =>
+      match o.node with
+      | .svar n _ =>
+        match sv.lookup n with
+        | some (a, _) => some (h, c, as, a)
+        | none => some (h, c, as, s)
+      | .var n T =>
+        match vv.lookup n with
+        | some (a, t) =>
+          match Term.checkedGetType [] t with
+          | .ok T' => if T' != T then none else some (h, c, as, a)
+          | .error _ => none
+        | none => some (h, c, as, s)
+      | .const _ _ => some (h, c, as, s)
+      | .bound _ => some (h, c, as, s)
+      | .comb f x =>
+        match c.lookup o.id with
+        | some r => some (h, c, as, r)
+        | none =>
+          match substHeap sv vv fuel h c as f with
+          | none => none
+          | some (h1, c1, as1, f') =>
+            match substHeap sv vv fuel h1 c1 as1 x with
+            | none => none
+            | some (h2, c2, as2, x') =>
+              if sameId h2 f' f && sameId h2 x' x then some (h2, (o.id, s) :: c2, as2, s)
+              else
+                match allocN h2 as2 (.comb f' x') with
+                | none => none
+                | some (h3, as3, a) => some (h3, (o.id, a) :: c2, as3, a)
+      | .abs nm T b =>
+        match c.lookup o.id with
+        | some r => some (h, c, as, r)
+        | none =>
+          match substHeap sv vv fuel h c as b with
+          | none => none
+          | some (h1, c1, as1, b') =>
+            if sameId h1 b' b then some (h1, (o.id, s) :: c1, as1, s)
+            else
+              match allocN h1 as1 (.abs nm T b') with
+              | none => none
+              | some (h2, as2, a) => some (h2, (o.id, a) :: c1, as2, a)
 
 end Holpy.C03
